@@ -82,6 +82,16 @@ fn real_build(sid: &[u8], b: &Base, init: Option<&[u8]>) -> Option<(Vec<u8>, Vec
         let mut seed = Box::new(SenderOTSeed::default());
         let mut out: Box<PPRFOutput> = Box::new(match init { Some(i) => bytemuck::pod_read_unaligned(i), None => PPRFOutput::default() });
         build_pprf(sid, &so, &mut seed, &mut out);
+        if init.is_none() {
+            // out-buffer probe: the seed buffer pre-filled.  (PPRFOutput is different: build_pprf XORs into its `t` words, a
+            // zeroed PPRFOutput is its precondition — the `init` cases above model exactly that accumulation.)
+            let fill = crate::report::dirty_fill(sid);
+            let mut seed2 = Box::new(SenderOTSeed::default()); let mut out2 = Box::new(PPRFOutput::default());
+            bytemuck::bytes_of_mut(&mut *seed2).iter_mut().for_each(|b| *b = fill);
+            build_pprf(sid, &so, &mut seed2, &mut out2);
+            if bytemuck::bytes_of(&*seed2) != bytemuck::bytes_of(&*seed) { crate::report::outbuf_dependence("build_pprf(SenderOTSeed)"); }
+            if bytemuck::bytes_of(&*out2) != bytemuck::bytes_of(&*out) { crate::report::outbuf_dependence("build_pprf(PPRFOutput) with a pre-filled seed buffer"); }
+        }
         (bytemuck::bytes_of(&*seed).to_vec(), bytemuck::bytes_of(&*out).to_vec())
     })).ok()
 }
@@ -92,7 +102,11 @@ fn real_eval(sid: &[u8], b: &Base, out: &[u8]) -> Option<Option<(Vec<u8>, Vec<u8
         let out: Box<PPRFOutput> = Box::new(bytemuck::pod_read_unaligned(out));
         let mut rs = Box::new(ReceiverOTSeed::default());
         match eval_pprf(sid, &ro, &out, &mut rs) {
-            Ok(()) => { let by = bytemuck::bytes_of(&*rs); Some((by[..NT].to_vec(), by[NT..].to_vec())) }
+            Ok(()) => {
+                let mut rs2 = Box::new(ReceiverOTSeed::default());
+                bytemuck::bytes_of_mut(&mut *rs2).iter_mut().for_each(|b| *b = crate::report::dirty_fill(sid));
+                if eval_pprf(sid, &ro, &out, &mut rs2).is_ok() && bytemuck::bytes_of(&*rs2) != bytemuck::bytes_of(&*rs) { crate::report::outbuf_dependence("eval_pprf(ReceiverOTSeed)"); }
+                let by = bytemuck::bytes_of(&*rs); Some((by[..NT].to_vec(), by[NT..].to_vec())) }
             Err(_) => None,
         }
     })).ok()
